@@ -77,7 +77,7 @@ Spec == Init /\ [][Next]_vars
 \* recorded defect; every other requirement stays in force.
 StepOK ==
   [][LET o == last'.o  S == last'.pre  r == last'.ret IN
-       /\ PropFrame(K, S, last'.led, o, bk')
+       /\ PropFrame(K, S, last'.led, o, r, bk')
        /\ o.op = "closest" => \/ ClosestOK(S, o, r)
                               \/ AllowD11 /\ D11Shape(S, o, r)]_vars
 StateInv == StateOK(K, bk)
